@@ -96,6 +96,8 @@ void        simrt_default_config(simrt_config* cfg, uint64_t seed);
 void        simrt_begin(const simrt_config* cfg);
 simrt_stats simrt_end(void);
 int         simrt_active(void);
+// change the simulated core count inside a run (pools created afterwards see the new value)
+void        simrt_set_cores(int cores);
 
 // schedule point owned by the harness (user call-backs); 'what' must be a string literal
 void     simrt_yield(const char* what);
